@@ -210,6 +210,13 @@ func (t *Teamserver) ListenerEdit(Type int, Config any) {
 				HTTP.Config.Uris = Config.(handlers.HTTPConfig).Uris
 				HTTP.Config.Proxy = Config.(handlers.HTTPConfig).Proxy
 				HTTP.Config.BehindRedir = t.Profile.Config.Demon.TrustXForwardedFor
+
+				// store the edited configuration, otherwise the next start restores the old one
+				if err := t.DB.ListenerRemove(t.Listeners[i].Name); err != nil {
+					logger.Error("Failed to update listener in database: " + err.Error())
+				} else {
+					t.ListenerAdd("", handlers.LISTENER_HTTP, HTTP)
+				}
 			}
 
 		}
